@@ -22,10 +22,20 @@ package envs
 //@   field data guarded_by mu
 //@   monitor mu invariant self.data != nil
 
+// a name is accepted iff it matches the identifier pattern, and the pattern is the one below:
+// one or more letters, then letters and underscores (A-REGEXP: the meaning of this expression
+// is regexp's; what is checked is that the package compiles exactly this text and that
+// validKey matches against exactly that object)
+//@ func init [C18]
+//@   layers contract trace
+//@   trace regexp.MustCompile as COMPILE bind pat
+//@   at_call regexp.MustCompile requires $0 == "^[a-zA-Z]+([_a-zA-Z]+)?$"
+// (the initializer body runs once; on the path where the guard is already set nothing happens)
+//@   ensures bound(pat) ==> envNamePattern == pat
 //@ func (*Environments).validKey [C18]
 //@   modifies $none
 //@   trace MatchString as MATCH bind ok
-//@   at_call MatchString requires $1 == key
+//@   at_call MatchString requires $0 == envNamePattern && $1 == key
 //@   ensures (err == nil) <==> ok
 //@ func (*Environments).valid [C18]
 //@   modifies $none
